@@ -2006,6 +2006,15 @@ func runC12(run *Run, replay string) Spec {
 					Scenario c12Scenario `json:"scenario"`
 				} `json:"scenarios_in_flight"`
 			}
+			var raw struct {
+				Violation struct {
+					Input json.RawMessage `json:"input"`
+				} `json:"violation"`
+			}
+			if json.Unmarshal(b, &raw) == nil && c12FilterReplay(run, raw.Violation.Input) {
+				_ = os.Remove(curPath)
+				return spec
+			}
 			if json.Unmarshal(b, &f) == nil {
 				if len(f.Violation.Input.Scenario.Ops) > 0 {
 					exec(&f.Violation.Input.Scenario)
